@@ -93,6 +93,8 @@ EXTRA = {
     "GaussianLikelihood_lognormal": lambda: L.GaussianLikelihood(noise_prior=P.LogNormalPrior(-1.0, 0.5), noise_constraint=C.GreaterThan(1e-3)),
     "MultitaskGaussianLikelihood_prior": lambda: L.MultitaskGaussianLikelihood(num_tasks=2, rank=1, noise_prior=_g()),
     "BernoulliLikelihood": lambda: L.BernoulliLikelihood(),
+    # LKJ priors: the shape parameter eta (variant 1: another eta) and the prior over the standard deviations
+    "IndexKernel_lkj_prior": lambda v=0: K.IndexKernel(num_tasks=2, rank=1, prior=P.LKJCovariancePrior(2, 1.0 + 2.0 * v, P.SmoothedBoxPrior(0.1, 2.0 + v))),
     "ScaleToBounds_int_bounds": lambda: FeatureScaler(gpytorch.utils.grid.ScaleToBounds(-1, 1)),
     "ScaleToBounds": lambda: FeatureScaler(gpytorch.utils.grid.ScaleToBounds(-1.0, 1.0)),
     # plain GridKernel; variant 1 = another grid of the same size (the grid buffers travel in the state_dict)
